@@ -3,6 +3,9 @@ import DW.Props.C09
 import DW.Props.C18
 import DW.Props.C06
 import DW.Lemmas.Obl
+import DW.Lemmas.Typed
+import DW.Lemmas.DefaultPos
+import DW.Props.C16
 
 /-!
 # C02 — every accepted item yields compiling impls of exactly the requested traits
@@ -23,6 +26,12 @@ rustc's type checker is outside the model; what *is* proved about the model:
   operations on well-formed values are the `ok` outcomes of the refinement
   theorems C03, C04, C08–C11, C18, C19 (`stuck` is the evaluator's "rustc would
   reject this").
+* `C02_well_typed`: every generated method passes the model's static type checker (`DW/Typing.lean`) at the return
+  type of its signature — arguments of every call have the shapes of the callee's signature, all arms of every
+  `match` agree, patterns fit their scrutinees, constructors get every field once and in order, `as` casts are only
+  applied to field-less enums, `return None` only occurs in `partial_cmp` — for every item that validation accepts,
+  every attribute, trait and configuration.  Together with `C02_obligations` (which trait bounds the calls need) this
+  is the model's account of "the expansion type-checks".
 Whether rustc accepts the expansion is checked by correspondence B (every
 accepted, well-posed generated item must compile in each configuration).
 -/
@@ -116,5 +125,90 @@ example : (Expr.call (.traitFn .cmp) [.var (.selfField 0 0), .var (.otherField 0
     (fun o => o == .field 0 0 .partialEq) = true := by decide
 example : (Expr.deref vSelf).oblBad (fun o => o != .copySelf) = true := by decide
 
-end DW
+/-- What validation establishes about an accepted item is what the generators need in order to emit typeable code. -/
+theorem typeable_of_validated (c : Cfg) (raw : RawItem) (hraw : RawOK raw) (inp : Input)
+    (h : Input.fromInput c raw = .ok inp) (dw : DeriveWhere) (hdw : dw ∈ inp.deriveWheres)
+    (t : DeriveTrait) (ht : t ∈ dw.traits) : Typeable c inp.item dw t.trait := by
+  have hok := Input.fromInput_ok c raw inp h
+  refine ⟨?_, ?_, ?_, ?_⟩
+  · -- `Ord` excludes every `incomparable` marker
+    intro hord
+    have hno : ¬ (inp.item.markedIncomparable = true ∨ ∃ d ∈ inp.item.variants, d.incomparable = true) := by
+      intro hinc
+      exact ((hok.incomparable hinc).1 dw hdw t ht).2 hord
+    have hall : ∀ d ∈ inp.item.variants, d.incomparable = false := by
+      intro d hd
+      cases hi : d.incomparable
+      · rfl
+      · exact absurd (Or.inr ⟨d, hd, hi⟩) hno
+    refine ⟨?_, hall⟩
+    cases hii : inp.item.isIncomparable
+    · rfl
+    · exfalso
+      apply hno
+      cases hit : inp.item with
+      | item d =>
+        right; exact ⟨d, by simp [Item.variants], by simpa [hit, Item.isIncomparable] using hii⟩
+      | enum_ disc id inc vs =>
+        simp only [hit, Item.isIncomparable, Bool.or_eq_true, Bool.and_eq_true, Bool.not_eq_true',
+          List.isEmpty_eq_false_iff, List.all_eq_true] at hii
+        rcases hii with hm | ⟨hne, hallinc⟩
+        · left; simpa [Item.markedIncomparable] using hm
+        · right
+          obtain ⟨d, hd⟩ := List.exists_mem_of_ne_nil vs hne
+          exact ⟨d, by simpa [Item.variants] using hd, hallinc d hd⟩
+  · -- `Discriminant::Single` means one variant
+    intro _ id inc vs hit hn _ hlen
+    have := fromInput_single c raw inp h hn id inc vs hit
+    omega
+  · -- `Unit` / `UnitRepr` mean no fields anywhere
+    intro disc id inc vs hit hd
+    have hf := hok.fieldless disc id inc vs hit hd
+    simp only [Item.fieldless, hit, Item.variants, List.all_eq_true]
+    intro d hdm
+    simp [hf d hdm]
+  · -- `Default` is derived: one default position
+    intro hdef
+    have hnu : raw.kind ≠ .union_ := by
+      intro hk
+      have := hok.union dw hdw t ht hk
+      rw [hdef] at this
+      simp [Trait.supportsUnion] at this
+    exact default_position c raw inp h hnu hraw.shapes
+      ⟨dw, hdw, by simp only [DeriveWhere.contains, List.any_eq_true]; exact ⟨t, ht, by simp [hdef]⟩⟩
 
+/-- **Every generated method type-checks** in the model's type system (`DW/Typing.lean`): for every raw item the
+validation accepts, every attribute, every requested trait and every feature configuration, the body of each `fn` of
+each generated impl has the return type of its signature. -/
+theorem C02_well_typed (c : Cfg) (raw : RawItem) (hraw : RawOK raw) (inp : Input)
+    (h : Input.fromInput c raw = .ok inp) (dw : DeriveWhere) (hdw : dw ∈ inp.deriveWheres)
+    (t : DeriveTrait) (ht : t ∈ dw.traits) :
+    ∀ im ∈ generateImpl c inp dw t, ∀ m ∈ im.methods, m.wellTyped inp.item = true := by
+  have hty := wellTyped_generateBody c inp.item dw t.trait (typeable_of_validated c raw hraw inp h dw hdw t ht)
+  intro im him m hm
+  unfold generateImpl at him
+  simp only at him
+  split at him
+  · simp only [List.mem_cons, List.not_mem_nil, or_false] at him
+    rcases him with rfl | rfl
+    · exact hty m hm
+    · simp at hm
+  · simp only [List.mem_singleton] at him
+    subst him
+    exact hty m hm
+
+/-- The checker rejects what rustc rejects: `Ord::cmp` applied to two *different* fields, a `match` whose arms
+disagree, `return None` inside `cmp`, an `as` cast of an enum with fields, a struct literal that omits a field. -/
+example :
+    let d2 : Data := ⟨.none, false, ⟨"A", false⟩, .named, false, false, [default, default], none⟩
+    let cx : TyCx := ⟨.item d2, .ordering⟩
+    let Γ : TEnv := [(.selfField 0 0, .ref (.field 0 0)), (.otherField 0 1, .ref (.field 0 1)),
+      (.self_, .ref .self_)]
+    (Expr.call (.traitFn .cmp) [.var (.selfField 0 0), .var (.otherField 0 1)]).ty cx Γ = none ∧
+    (Expr.match_ (.var (.selfField 0 0)) [.mk .wild (.litBool true) true, .mk .wild .equal true]).ty cx Γ = none ∧
+    (Expr.ret .none_).ty cx Γ = none ∧
+    (Expr.cast (.deref (.var .self_)) .isize).ty cx Γ = none ∧
+    (Expr.structLit 0 [.mk 0 (.defaultCall 0 0)]).ty cx Γ = none := by
+  decide
+
+end DW
